@@ -306,6 +306,19 @@ def _step(ctx, cls):
         if len(sol) == 0 and any(e.kind == "for_iter" and not e.data.get("comprehension") for e in p.events):
             _unsolved_step(ctx, it, f, cls, p)
             continue
+        if len(sol) > 1:
+            # several solves in one step (a predictor, a retry): the step's system is the one whose solution is written
+            # to the level array; what the others feed into it shows in its matrix and right-hand side
+            def _stored(ev_):
+                res_ = ev_.data.get("result")
+                return any(
+                    e.kind == "store_sub" and isinstance(e.data["base"], Arr2) and (e.data["value"] is res_ or (isinstance(e.data["value"], ExtObj) and e.data["value"].qual.endswith("[0]") and e.data["value"].args.get("of") is res_))
+                    for e in p.events
+                )
+
+            kept = [e for e in sol if _stored(e)]
+            if len(kept) == 1:
+                sol = kept
         if len(sol) != 1:
             raise AnalysisError(f"{cls}.simulate: expected one linear solve per step, found {len(sol)}")
         A, b = solver_inputs(sol[0])
